@@ -1698,7 +1698,12 @@ def explicit_super(tree: ast.Module) -> None:
 
 
 def yield_from_genexp(tree: ast.Module) -> None:
-    """yield from (E for v in IT if C)   ->   for v in IT: if C: yield E     (single generator; v must be new to the function)."""
+    """yield from (E for v in IT if C for w in JT ..)      ->   for v in IT: if C: for w in JT: .. yield E
+       yield from chain.from_iterable(E for v in IT ..)  ->   for v in IT: .. yield from E
+    (the generator's variables must be new to the function)."""
+    def is_chain(e: ast.AST) -> bool:
+        return isinstance(e, ast.Call) and ast.unparse(e.func) in ("chain.from_iterable", "itertools.chain.from_iterable") and len(e.args) == 1 and not e.keywords
+
     for fn in [n for n in ast.walk(tree) if isinstance(n, (ast.FunctionDef, ast.AsyncFunctionDef))]:
         for holder in ast.walk(fn):
             for fld in ("body", "orelse", "finalbody"):
@@ -1706,18 +1711,23 @@ def yield_from_genexp(tree: ast.Module) -> None:
                 if not (isinstance(body, list) and body and isinstance(body[0], ast.stmt)):
                     continue
                 for i, st in enumerate(body):
-                    if not (isinstance(st, ast.Expr) and isinstance(st.value, ast.YieldFrom) and isinstance(st.value.value, (ast.GeneratorExp, ast.ListComp)) and len(st.value.value.generators) == 1):
+                    if not (isinstance(st, ast.Expr) and isinstance(st.value, ast.YieldFrom)):
                         continue
-                    ge = st.value.value
-                    g = ge.generators[0]
-                    gn = {n.id for n in ast.walk(g.target) if isinstance(n, ast.Name)}
+                    src_ = st.value.value
+                    chained = is_chain(src_)
+                    ge = src_.args[0] if chained else src_
+                    if not (isinstance(ge, (ast.GeneratorExp, ast.ListComp)) and ge.generators and not any(g.is_async for g in ge.generators)):
+                        continue
+                    gn = {n.id for g in ge.generators for n in ast.walk(g.target) if isinstance(n, ast.Name)}
                     others = {n.id for x in fn.body for n in ast.walk(x) if isinstance(n, ast.Name)} - {n.id for n in ast.walk(ge) if isinstance(n, ast.Name)}
-                    if gn & others or g.is_async:
+                    if gn & others:
                         continue
-                    inner: List[ast.stmt] = [ast.Expr(value=ast.Yield(value=ge.elt))]
-                    for c in reversed(g.ifs):
-                        inner = [ast.If(test=c, body=inner, orelse=[])]
-                    loop = ast.For(target=g.target, iter=g.iter, body=inner, orelse=[], type_comment=None)
+                    inner: List[ast.stmt] = [ast.Expr(value=ast.YieldFrom(value=ge.elt) if chained else ast.Yield(value=ge.elt))]
+                    for g in reversed(ge.generators):
+                        for c in reversed(g.ifs):
+                            inner = [ast.If(test=c, body=inner, orelse=[])]
+                        inner = [ast.For(target=g.target, iter=g.iter, body=inner, orelse=[], type_comment=None)]
+                    loop = inner[0]
                     ast.copy_location(loop, st)
                     for x in ast.walk(loop):
                         if isinstance(x, (ast.stmt, ast.expr)) and not hasattr(x, "lineno"):
